@@ -143,6 +143,17 @@ def run(ctx):
             cases.append(("field-pair", node, kfl.render(node), kfl.json_of({"a": x, "b": y}), None, {}))
         node = ('Q', [pa, pb], [rng.choice(['==', '!='])])
         cases.append(("field-pair", node, kfl.render(node), kfl.json_of({"a": [x, 5], "b": y}), None, {}))
+    # unary minus (once, twice) on record numbers of every kind, compared with their decimal texts: the operand keeps its
+    # kind under the sign (an integer of seven or more digits has another text as a float)
+    for n in (7, 1234567, -1234567, 12345678, 2 ** 31, 2 ** 53 + 1, 1000000, 999999, 1234.5678, 0.000012345678, 1e21, -0.0, 0):
+        for pre in ('-', '--'):
+            val = -n if pre == '-' else n
+            texts = {("%d" % val) if isinstance(val, int) else ("%.6g" % val), "%.6g" % val, repr(val), str(int(val)) if float(val).is_integer() and abs(val) < 2 ** 63 else repr(val)}
+            for t in sorted(texts):
+                for op in ('==', '!='):
+                    for rhs in (('str', t), ('re', "^" + t.replace("+", "[+]").replace(".", "[.]") + "$")):
+                        node = ('Q', [('U', pre, pa), rhs], [op])
+                        cases.append(("signed-number-text", node, kfl.render(node), kfl.json_of({"a": n}), None, {}))
     # both operands arrays (array-valued fields and wildcard matches), every operator, elements among them the strings
     # that parse as NaN and the infinities (an ordering is neither true nor refuted for NaN)
     av = [0, 1, 2, 3, 7.5, -1, 2 ** 53, 2 ** 53 + 1, "NaN", "nan", "inf", "-inf", "+Inf", "x", "7", None, True]
